@@ -13,9 +13,11 @@ display width 1: the correspondence check restricts itself to printable ASCII, b
 `rewrite_comment` (comment.rs) is NOT part of this model: `writeList` takes the comment rewriter as a
 parameter `rc : orig → block_style → shape → Option String` (the `Config` argument of the real function
 is the one fixed `Config` of the `ListFormatting`).  Every theorem about `writeList` holds for every `rc`,
-under the hypotheses it names.  The driver instantiates `rc` with `rewriteCommentLight` (below), a model
-of `identify_comment` under `normalize_comments = false`, `wrap_comments = false` on comments without
-"bare lines" in a block comment, which is itself compared with the real `rewrite_comment`.
+under the hypotheses it names.  The driver instantiates `rc` with `rewriteCommentLight`
+(`RF/Model/ListsRc.lean`), a model of `identify_comment` under `normalize_comments = false`,
+`wrap_comments = false`, which is itself compared with the real `rewrite_comment` (`lists.rc`) and for
+which the hypothesis "keeps the non-blank characters of a comment" is proved
+(`RF/Lemmas/ListsRc.lean`).
 
 The output of `write_list` is built as a list of tagged pieces (`Piece`): the code's `result` string is
 `render pieces`; the tags (blank / separator / item / pre-comment / post-comment) record which statement
